@@ -157,7 +157,7 @@ def inner(datagram):
 
 
 class ThreadedSession:
-    def __init__(self, snapshot=DEFAULT_SNAPSHOT, peer=None):
+    def __init__(self, snapshot=DEFAULT_SNAPSHOT, peer=None, facade_first=True):
         from geckolib.spa import GeckoSpa
         from geckolib.automation.facade import GeckoFacade
 
@@ -170,8 +170,19 @@ class ThreadedSession:
         self.seen = 0
         self.drop = None      # callable(data, direction) -> bool
         with contextlib.redirect_stdout(io.StringIO()):
+            if facade_first:
+                self.facade = GeckoFacade(self.spa)
+                self.spa.start_connect()
+            else:
+                # the order of GeckoSpaDescriptor.get_facade(): the connection is started, the facade comes later
+                self.facade = None
+                self.spa.start_connect()
+
+    def make_facade(self):
+        from geckolib.automation.facade import GeckoFacade
+        with contextlib.redirect_stdout(io.StringIO()):
             self.facade = GeckoFacade(self.spa)
-            self.spa.start_connect()
+        return self.facade
 
     def pump(self, iters=1, dt=0.03):
         for _ in range(iters):
